@@ -410,7 +410,18 @@ async fn run_conn(mech: u8, steps: &[StepA], recorded_response: Option<&Vec<u8>>
 }
 
 /// does the script constitute exactly one valid authentication followed by the AMQP open?
-fn model_authenticated(c: &CaseA) -> bool {
+fn model_authenticated(c0: &CaseA) -> bool {
+    // an AMQP header followed by an open frame, as two steps, is the same as the composite step
+    let mut c = c0.clone();
+    let mut i = 0;
+    while i + 1 < c.steps.len() {
+        if c.steps[i] == StepA::Header(1) && c.steps[i + 1] == StepA::AmqpOpenFrame {
+            c.steps[i] = StepA::AmqpHeaderAndOpen;
+            c.steps.remove(i + 1);
+        }
+        i += 1;
+    }
+    let c = &c;
     let valid_init = |s: &StepA| matches!(s, StepA::Init { mech: m, user: Field::Exact, pass, authzid: _, extra_field, no_response: false } if mech_name(m, c.mech) == mech_name(&Mech::Configured, c.mech) && (c.mech != 0 || (*pass == Field::Exact && !*extra_field)));
     let mut want: Vec<&dyn Fn(&StepA) -> bool> = Vec::new();
     let is_hdr = |s: &StepA| matches!(s, StepA::Header(0));
